@@ -129,7 +129,7 @@ fn setters(d: &reg::IDesc, ctx: &Ctx, r: &mut Report) {
 	let base = (d.default)();
 	let Ok(Value::Object(obj)) = base.ser() else { return };
 	let mut rng = Rng::new(ctx.seed ^ crate::rng::hash_str(d.name));
-	let per_field = ctx.pick(40, 2000);
+	let per_field = ctx.pick(300, 2000);
 	for (name, cur) in obj.iter() {
 		let kind = field_kind(cur);
 		if kind == FieldKind::Other {
@@ -345,7 +345,7 @@ pub fn run(ctx: &Ctx, r: &mut Report) {
 			}
 			setters(d, ctx, r);
 		}
-		let cfgs = icfg::configs(d, ctx.pick(12, 100), ctx.seed);
+		let cfgs = icfg::configs(d, ctx.pick(40, 100), ctx.seed);
 		for cfg in cfgs.iter() {
 			k += 1;
 			if !ctx.mine(k) {
